@@ -5,9 +5,12 @@ Part A: theorems about the reverse Kahn loop of `Graph.sort` over an ARBITRARY f
 predecessor relation (`C12_kahn_*`).  Part B: the same instantiated with the predecessor lists
 `Graph.sort` builds from a graph tree (`C12_perm`, `C12_respects`, `C12_cycle_iff`,
 `C12_cycle_no_change`, `C12_fixpoint_graph`, `C12_fixpoint`, `C12_deterministic`).
-Helper developments: `Lemmas/SortKahn.lean`, `Lemmas/SortTree.lean`, `Lemmas/SortPos.lean`.
+Helper developments: `Lemmas/SortKahn.lean` (the loop), `Lemmas/SortTree.lean` (the tree),
+`Lemmas/SortPos.lean` (positions vs ids), `Lemmas/SortStable.lean` (stability; defines `WellScoped`,
+`OrderedG`), `Lemmas/SortAcyclic.lean` (ordered => acyclic), `Lemmas/SortRename.lean` (renaming).
 -/
-import IrVerif.Lemmas.SortPos
+import IrVerif.Lemmas.SortAcyclic
+import IrVerif.Lemmas.SortRename
 import Mathlib.Data.List.Forall2
 
 namespace IrVerif.Sort
@@ -203,6 +206,52 @@ theorem C12_cycle_no_change (g : MGraph) (h : (sortEffect g).1 = true) :
   unfold sortEffect at *
   split at h <;> simp_all
 
+/-- **C12_fixpoint_graph** (per graph, stronger than the property asks): in a well-scoped tree
+    whose sort succeeds, every graph that is already in order (`OrderedG`: each node after the
+    same-graph producers of the values used by it or by nodes nested in it) keeps exactly its node
+    sequence — even when other graphs of the tree are reordered. -/
+theorem C12_fixpoint_graph (g : MGraph) (hwf : WF g) (hws : WellScoped g)
+    (r : List (Nat × List Nat)) (hs : sortModel g = some r) (h : MGraph) (hh : h ∈ allGraphs g)
+    (hord : OrderedG h) : orderOf h ∈ r ∧ ∀ new, (h.1, new) ∈ r → new = h.2.map MNode.id := by
+  obtain ⟨hlen, hr⟩ := sortModel_some hs
+  have hb := bucket_eq_of_ordered hwf.ids hwf.gids hws hlen hh hord
+  constructor
+  · rw [hr]
+    refine List.mem_map.2 ⟨orderOf h, List.mem_map.2 ⟨h, hh, rfl⟩, ?_⟩
+    show (h.1, relink (h.2.map MNode.id) (bucket _ _ h.1)) = (h.1, h.2.map MNode.id)
+    rw [(new_order_eq hwf hlen hh).1, hb]
+  · intro new hnew
+    rw [result_entry hwf hs hh hnew, hb]
+
+/-- **C12_fixpoint**: a well-scoped tree all of whose graphs are already in order is sorted
+    without raising, and every graph keeps exactly its node sequence: output = input. -/
+theorem C12_fixpoint (g : MGraph) (hwf : WF g) (hws : WellScoped g)
+    (hord : ∀ h ∈ allGraphs g, OrderedG h) : sortModel g = some (graphsOf g) := by
+  cases hs : sortModel g with
+  | none =>
+    exact absurd ((C12_cycle_iff g hwf).1 hs) (ordered_acyclic hwf.ids hws hord)
+  | some r =>
+    obtain ⟨hlen, hr⟩ := sortModel_some hs
+    rw [hr]
+    congr 1
+    conv_rhs => rw [← List.map_id (graphsOf g)]
+    apply List.map_congr_left
+    intro gc hgc
+    obtain ⟨h, hh, rfl⟩ := List.mem_map.1 hgc
+    have hb := bucket_eq_of_ordered hwf.ids hwf.gids hws hlen hh (hord h hh)
+    show (h.1, relink (h.2.map MNode.id) (bucket _ _ h.1)) = (h.1, h.2.map MNode.id)
+    rw [(new_order_eq hwf hlen hh).1, hb]
+
+/-- **C12_deterministic**: the model is a function of the encoded tree (structure + current
+    order + identities); moreover it does not depend on the identities: renaming node identities
+    by any injective `σ` and graph identities by any injective `τ` (e.g. a different allocation
+    order of the same object graph) renames the outcome and nothing else — same raise-or-not,
+    same new order of every graph. -/
+theorem C12_deterministic (σ τ : Nat → Nat) (hσ : Function.Injective σ)
+    (hτ : Function.Injective τ) (g : MGraph) :
+    sortModel (renG σ τ g) = (sortModel g).map (renOrders σ τ) :=
+  sortModel_ren hσ hτ g
+
 /-! ## non-vacuity -/
 
 /-- `g0 = [n1, n0]`, `n1` uses `n0` and owns the body `g1 = [n2]`, `n2` captures `n0` -/
@@ -218,5 +267,27 @@ example : sortEffect ex2 = (true, [(0, [0, 1])]) := by decide
 example : ∀ c, c < 3 → ∀ p ∈ predsAt (nodesOf ex1) c, p < 3 := predsAt_lt (nodesOf ex1)
 example : (kahn 3 (predsAt (nodesOf ex1))) = [2, 1, 0] := by decide
 example : relink [3, 1, 2] [1, 2, 3] = [1, 2, 3] := by decide
+
+/-- `g0 = [n0, n1, n3]`: `n1` uses `n0` and owns `g1 = [n2, n4]` where `n2` captures `n0` and
+    `n4` uses `n2`; `n3` uses `n1` — well scoped and already in order -/
+def ex3 : MGraph :=
+  (0, [MNode.mk 0 [] [],
+       MNode.mk 1 [some 0, none] [(1, [MNode.mk 2 [some 0] [], MNode.mk 4 [some 2, some 2] []])],
+       MNode.mk 3 [some 1] []])
+/-- like `ex3` with the outer graph out of order (`n1` before `n0`) but the body in order -/
+def ex4 : MGraph :=
+  (0, [MNode.mk 1 [some 0, none] [(1, [MNode.mk 2 [some 0] [], MNode.mk 4 [some 2, some 2] []])],
+       MNode.mk 0 [] [],
+       MNode.mk 3 [some 1] []])
+
+example : WF ex3 := ⟨by decide, by decide⟩
+example : WellScoped ex3 := by unfold WellScoped; decide
+example : ∀ h ∈ allGraphs ex3, OrderedG h := by unfold OrderedG; decide
+example : sortModel ex3 = some (graphsOf ex3) := by decide
+example : WF ex4 ∧ WellScoped ex4 := ⟨⟨by decide, by decide⟩, by unfold WellScoped; decide⟩
+example : OrderedG (1, [MNode.mk 2 [some 0] [], MNode.mk 4 [some 2, some 2] []]) ∧
+    ¬ OrderedG ex4 := by unfold OrderedG; decide
+example : sortModel ex4 = some [(0, [0, 1, 3]), (1, [2, 4])] := by decide
+example : Function.Injective (fun n : Nat => n + 7) := fun a b h => by simpa using h
 
 end IrVerif.Sort
